@@ -22,7 +22,12 @@ class ContentBody:
 
     def __len__(self) -> int:
         """Return the length of the content body value"""
-        return len(self.value) if self.value else 0
+        if not self.value:
+            return 0
+        try:
+            return memoryview(self.value).nbytes  # octets, not items
+        except TypeError:
+            return len(self.value)
 
     def marshal(self) -> bytes:
         """Return the marshaled content body. This method is here for API
